@@ -3,7 +3,7 @@
 # ./check.sh replay <path>           re-run a recorded violating case
 # Exit 0 = held on everything explored, 1 = VIOLATION line printed, 2 = inconclusive.
 set -u
-cd /verif
+cd "$(dirname "$(readlink -f "$0")")"; export VERIF_ROOT="$PWD"
 export GOFLAGS=-mod=mod GOPROXY=off GOSUMDB=off GOTOOLCHAIN=local
 export GOCACHE=${GOCACHE:-/root/.cache/go-build}
 mkdir -p bin work evidence replays
